@@ -58,8 +58,10 @@ STRIDE = {'prop': None, 'moment': 16, 'p_sph': 4}
 
 
 def tasks(tier):
+    # order1 hands the 4x4 system to augmented_matrix / gj_solve (C13): their
+    # contracts for n = 4 are re-proved here
     return ['shepard', 'sph', 'splash', 'splash_norm', 'order1', 'traces',
-            'canary']
+            'canary', 'dep:C13:helpers:4', 'dep:C13:gj:4:1']
 
 
 # ------------------------------------------------------------------ helpers
@@ -247,6 +249,9 @@ def replay_sum(cls, method):
 
 # --------------------------------------------------------------------- tasks
 def run_task(task, ctx):
+    if task.startswith('dep:'):
+        from contracts import deps
+        return deps.run_dep(task, ctx)
     repo = Repo()
     m = repo.module(MOD)
     if task == 'shepard':
